@@ -32,6 +32,22 @@ def gen_cases(seed, tier):
 def scenario_of(case):
     if "scenario" in case:
         return case["scenario"]
+    scn = _draw(case)
+    if case["run_index"] % 5 == 4:
+        # the emcee-driven SMC variant shares the loop and the history (its own randomness is not restorable, which
+        # matters for C11, not for the internal consistency of a history)
+        scn["sampler"] = "emcee_smc"
+        sk = scn["sample_kwargs"]
+        for k in ("min_step", "max_n_steps"):
+            sk.pop(k, None)
+        sk["sampler_kwargs"] = {"nsteps": 2, "progress": False}
+        scn["rng_route"] = "none"
+        if scn["xp"] == "jax" and scn["preconditioning"] == "none":
+            scn["preconditioning"] = "default"
+    return scn
+
+
+def _draw(case):
     quick = case.get("tier") == "quick"
     return draw_smc_scenario(
         case["scenario_seed"],
